@@ -609,6 +609,18 @@ def predicates(case, o, info, f, ref):
     m = pred_own_factors(case, o)
     if m:
         out.append(('own_factors', m, None))
+    if case['strict'] and len(o['shape']) >= 3:
+        # strict sorting assembles volumes by slice label whatever the other keys can tell apart: every returned
+        # volume holds each slice number once, in the same order in every volume (seeded C20-10: with tied keys a
+        # "volume" was built from one slice of several volumes)
+        nsl = o['shape'][2]
+        pay = o['payload']
+        if nsl and len(pay) % nsl == 0 and all(i >= 0 for i in pay):
+            seqs = [[f.slices[i] for i in pay[v * nsl:(v + 1) * nsl]] for v in range(len(pay) // nsl)]
+            bad = [v for v, q in enumerate(seqs) if sorted(q) != sorted(set(q)) or q != seqs[0]]
+            if bad:
+                out.append(('volumes_by_slice_label', f'output volume {bad[0]} holds slice numbers {seqs[bad[0]]} '
+                            f'(volume 0: {seqs[0]})', None))
     if o.get('sliced'):
         # partial reads must show the same records as the whole array (which own_factors ties to the records)
         out.append(('sliced_read', o['sliced'], None))
